@@ -1,5 +1,5 @@
 import CkbVerif.Driver.Util
-import CkbVerif.Model.Orphan
+import CkbVerif.Model.Orphan3
 import CkbVerif.Model.Skip
 import CkbVerif.Model.Inflight
 import CkbVerif.Model.HeaderMap
@@ -18,30 +18,40 @@ def showSet (l : List Nat) : String := showNatList (canon l)
 namespace O
 open CkbVerif.Orphan
 
-def tail (s : Pool) : String := s!"len={s.pool.length} leaders={showSet s.leaders}"
+def natLe (a b : Nat) : Bool := decide (a ≤ b)
+
+/-- all three maps, canonical: parents sorted by hash, groups sorted by parent, children by id -/
+def tail (s : Pool3) : String :=
+  let pa := s.parents.mergeSort (fun a b => natLe a.1 b.1)
+  let pas := if pa.isEmpty then "-" else ",".intercalate (pa.map fun e => s!"{e.1}>{e.2}")
+  let bl := s.blocks.mergeSort (fun a b => natLe a.1 b.1)
+  let bls := if bl.isEmpty then "-" else ";".intercalate (bl.map fun e =>
+    let ids := (e.2.map (·.id)).mergeSort natLe
+    s!"{e.1}:[{",".intercalate (ids.map toString)}]")
+  s!"len={len3 s} leaders={showSet s.leaders} parents={pas} blocks={bls}"
 
 /-- released blocks: sorted ids, duplicates kept (so a double release would show) -/
 def showBlks (l : List Blk) : String :=
   showNatList ((l.map (·.id)).mergeSort (fun a b => decide (a ≤ b)))
 
-def step (s : Pool) (ts : List String) : Pool × String :=
+def step (s : Pool3) (ts : List String) : Pool3 × String :=
   match ts with
   | ["insert", i, p, e] =>
     match parseNat? i, parseNat? p, parseNat? e with
     | some i, some p, some e =>
-      let s' := insert s ⟨i, p, e⟩
+      let s' := insert3 s ⟨i, p, e⟩
       (s', tail s')
     | _, _, _ => (s, "bad-op")
   | ["release", p] =>
     match parseNat? p with
     | some p =>
-      let r := removeByParent s p
+      let r := removeByParent3 s p
       (r.1, s!"{showBlks r.2} {tail r.1}")
     | none => (s, "bad-op")
   | ["expire", e] =>
     match parseNat? e with
     | some e =>
-      let r := cleanExpired s e
+      let r := cleanExpired3 s e
       (r.1, s!"{showBlks r.2} {tail r.1}")
     | none => (s, "bad-op")
   | _ => (s, "bad-op")
@@ -134,16 +144,20 @@ def blkLe (a b : Blk) : Bool := a.number < b.number || (a.number == b.number && 
 
 def showBlk (b : Blk) : String := s!"{b.number}:{b.hash}"
 
+/-- the same fold the harness prints (`c17.rs` `ta_hash`) -/
+def taHash (l : List Nat) : Nat :=
+  l.foldl (fun h x => (h * 1000003 + x % 1099511627689) % 1099511627689) 0
+
 def dump (s : Inflight) : String :=
   let sts := s.states.mergeSort (fun a b => blkLe a.1 b.1)
   let a := if sts.isEmpty then "-" else ";".intercalate (sts.map fun e => s!"{showBlk e.1}@{e.2.peer}/{e.2.ts}")
   let scs := s.scheds.mergeSort (fun a b => decide (a.1 ≤ b.1))
   let b := if scs.isEmpty then "-" else ";".intercalate (scs.map fun e =>
     let hs := e.2.hashes.mergeSort blkLe
-    s!"{e.1}:{e.2.taskCount}:[{",".intercalate (hs.map showBlk)}]")
+    s!"{e.1}:{e.2.taskCount}/{e.2.timeoutCount}:[{",".intercalate (hs.map showBlk)}]")
   let trs := s.trace.mergeSort (fun a b => blkLe a.1 b.1)
   let c := if trs.isEmpty then "-" else ";".intercalate (trs.map fun e => s!"{showBlk e.1}/{e.2}")
-  s!"states={a} scheds={b} trace={c} restart={s.restartNumber} div={s.analyzer.fast},{s.analyzer.normal},{s.analyzer.low}"
+  s!"states={a} scheds={b} trace={c} restart={s.restartNumber} div={s.analyzer.fast},{s.analyzer.normal},{s.analyzer.low} pol={if s.adjustment then 1 else 0},{s.protectNum} ta={s.analyzer.index}/{taHash s.analyzer.trace}"
 
 def step (s : Inflight) (ts : List String) : Inflight × String :=
   match ts with
@@ -175,6 +189,12 @@ def step (s : Inflight) (ts : List String) : Inflight × String :=
     match parseNats? [now, tip] with
     | some [now, tip] =>
       let s' := markSlow s now tip
+      (s', s!"ok {dump s'}")
+    | _ => (s, "bad-op")
+  | ["policy", adj, protect] =>
+    match parseNats? [adj, protect] with
+    | some [adj, protect] =>
+      let s' := setPolicy s (adj != 0) protect
       (s', s!"ok {dump s'}")
     | _ => (s, "bad-op")
   | ["consts"] =>
@@ -228,7 +248,7 @@ end H
 
 def main (args : List String) : IO UInt32 :=
   match args with
-  | ["orphan"] => runLines ({} : CkbVerif.Orphan.Pool) O.step
+  | ["orphan"] => runLines ({} : CkbVerif.Orphan.Pool3) O.step
   | ["skip"] => runLines ({} : S.St) S.step
   | ["inflight"] => runLines ({} : CkbVerif.Inflight.Inflight) I.step
   | ["headermap"] => runLines ({ limit := 0 } : CkbVerif.HeaderMap.HM) H.step
